@@ -200,7 +200,8 @@ class Exec:
             p, v = s.src.gconsts[name][0]
             return s.module_const(p, name)
         if name in BUILTINS: return Fn('builtin', name=name, py=BUILTINS[name])
-        if name in ('numpy', 'optimize', 'pandas', 'joblib', 'json', 'datetime', 'attr', 'typing', 'Path', 'sys', 'math'): return ModRef(name)
+        if name in ('numpy', 'optimize', 'pandas', 'joblib', 'json', 'datetime', 'attr', 'typing', 'Path', 'sys', 'math', 'logging', 'warnings'): return ModRef(name)
+        if name == '__name__': return 'pyvaporation'
         raise Unsupported("name %s" % name, node, path)
 
     def module_const(s, path, name):
@@ -668,6 +669,9 @@ class Exec:
             if b.name == 'numpy.linalg' and attr == 'lstsq': return Fn('builtin', name='numpy.linalg.lstsq', py=_ext('numpy.linalg.lstsq'))
             if b.name == 'optimize' and attr == 'minimize': return Fn('builtin', name='optimize.minimize', py=_ext('optimize.minimize'))
             if b.name == 'datetime': return Opaque('datetime.' + attr)
+            if b.name in ('logging', 'warnings'):
+                # diagnostics have no effect on the modelled state: every call is a no-op returning an uninterpreted value
+                return Fn('builtin', name=b.name + '.' + attr, py=lambda s_, *a, **k: Opaque(b.name + ' object'))
             if b.name in ('pandas', 'json', 'joblib'):
                 from . import iomodel
                 r = iomodel.module_attr(s, b.name, attr, node)
@@ -1578,14 +1582,32 @@ def _filter(s, f, xs):
 
 
 def _isinstance(s, x, c):
-    raise Unsupported("isinstance")
+    """isinstance for the cases a clean-up typically adds: numbers against int/float, objects against package classes"""
+    cs = c if isinstance(c, tuple) else (c,)
+    names = []
+    for k in cs:
+        if isinstance(k, Fn) and k.kind == 'class': names.append(k.name)
+        elif isinstance(k, Fn) and k.kind == 'builtin' and k.name in ('float', 'int', 'str', 'list', 'tuple', 'dict'): names.append(k.name)
+        else: raise Unsupported("isinstance against %r" % (k,))
+    if isinstance(x, Obj): return x.cls in names
+    if isinstance(x, T): return 'float' in names or ('int' in names and x.op == 'v' and x.a[1] == 'I')
+    if isinstance(x, bool): return 'int' in names
+    if isinstance(x, int): return 'int' in names
+    if isinstance(x, float): return 'float' in names
+    if isinstance(x, str): return 'str' in names
+    if isinstance(x, (PList, Seq, Post, Grow)): return 'list' in names
+    if isinstance(x, tuple): return 'tuple' in names
+    if isinstance(x, dict): return 'dict' in names
+    if x is None: return False
+    raise Unsupported("isinstance of %r" % (x,))
 
 
 BUILTINS = {'float': _float, 'int': _int, 'round': _round, 'getattr': _getattr, 'len': _len, 'range': _range, 'sum': _sum,
             'abs': _abs, 'max': _minmax(tmax, max), 'min': _minmax(tmin, min), 'list': _list, 'set': _set, 'copy': _copy,
             'filter': _filter, 'print': lambda s, *a, **k: None, 'str': lambda s, *a: (str(a[0]) if len(a) == 1 and isinstance(a[0], (int, str)) and not isinstance(a[0], bool) else Opaque("str")),
             'tuple': lambda s, x: tuple(x.items) if isinstance(x, PList) else (x if isinstance(x, Seq) else tuple(x)),          # a tuple of symbolic length: the element-wise list itself (never mutated)
-            'dict': lambda s: PDict(), 'enumerate': lambda s, x: _enumerate(s, x),
+            'dict': lambda s: PDict(), 'enumerate': lambda s, x: _enumerate(s, x), 'zip': lambda s, *xs: _zip(s, *xs), 'isinstance': lambda s, x, c: _isinstance(s, x, c),
+            'bool': lambda s, x: s.truth(x),
             'hash': lambda s, *a: (s.contracts['__fixed_clock__'] if s.contracts.get('__fixed_clock__') is not None else Opaque("hash")), 'type': lambda s, x: _type_of(s, x), 'open': lambda s, *a, **k: _open(s, *a, **k)}
 
 
@@ -1599,6 +1621,23 @@ def _enumerate(s, x):
         q.conds = x.conds
         return q
     raise Unsupported("enumerate(%r)" % (x,))
+
+
+def _zip(s, *xs):
+    """zip of lists: the list of tuples (shortest length for concrete lists; symbolic lists must have provably... the SAME length term)"""
+    xs = [post_as_seq(x) if isinstance(x, Post) else x for x in xs]
+    if all(isinstance(x, (PList, list, tuple)) for x in xs):
+        return PList([tuple(t) for t in zip(*[(x.items if isinstance(x, PList) else x) for x in xs])])
+    if all(isinstance(x, Seq) for x in xs):
+        n0 = xs[0].n
+        for x in xs[1:]:
+            if x.n is not n0 and not (isinstance(x.n, T) and isinstance(n0, T) and ir.ring_equal(x.n, n0)):
+                if not s.decide(eq(lift(x.n), lift(n0))): raise Unsupported("zip of lists whose lengths may differ")
+        q = Seq(n0, lambda i, xs=xs: tuple(x.fn(i) for x in xs), tag=('zip',) + tuple(x.tag for x in xs))
+        cs = [x.conds for x in xs if x.conds]
+        if cs: q.conds = lambda i, cs=cs: [c_ for f_ in cs for c_ in f_(i)]
+        return q
+    raise Unsupported("zip(%r)" % (xs,))
 
 
 def _type_of(s, x):
